@@ -911,6 +911,15 @@ class Interp:
                 return a + b
         if isinstance(a, PList) and t is ast.Mult and isinstance(b, int):
             return PList(list(a.items) * b)
+        if isinstance(a, PList) and isinstance(b, PList) and getattr(a, 'is_set', False) and getattr(b, 'is_set', False) and t in (ast.Sub, ast.BitAnd, ast.BitOr):
+            if t is ast.Sub:
+                r = PList([x for x in a.items if x not in b.items])
+            elif t is ast.BitAnd:
+                r = PList([x for x in a.items if x in b.items])
+            else:
+                r = PList(a.items + [x for x in b.items if x not in a.items])
+            r.is_set = True
+            return r
         if isinstance(a, PList) and isinstance(b, PList) and t is ast.Add:
             return PList(a.items + b.items)
         if isinstance(a, tuple) and isinstance(b, tuple) and t is ast.Add:
